@@ -23,7 +23,7 @@ LEVEL = "exploration"
 CASE_TIMEOUT = 40
 RULE = (
     "enumerated: activated flows without any waiting statement (must run exactly once; 16 programs); a same-event race family (flow p queues start/activate/await of b, an action or a send while its parent q finishes/aborts/returns on the same "
-    "event; both advancing orders; b pre-activated or not; p and q started or activated; 640 programs x 2 histories incl. idle time); generated: "
+    "event; both advancing orders; b pre-activated or not; p and q started or activated; 640 programs x 2 histories incl. idle time) and a restart-race family (an activated flow already restarted 0-2 times ends on the very event that ends its last activator; 36 programs); generated: "
     "program from the co2 grammar (hierarchies up to depth 4 through start/await/activate, when/or when, await groups, abort/return, "
     "actions with references); history of 1-30 items (events, guided 'hit' events, Started/Finished of the k-th running action - so "
     "Finished may arrive before the flow waits for it, late, or never); tie-break choices drawn. Non-trivial = during the history a flow "
@@ -87,8 +87,26 @@ def _nowait_cases():
                 yield {"leg": "nowait", "text": "\n".join(lines), "hist": hist, "choices": [], "body": name}
 
 
+def _restart_race_cases():
+    """An activated flow that has already been restarted r times ends (more specific match) on the very event that also ends
+    its last activator: the restart it queues must not survive the deactivation."""
+    for r in (0, 1, 2):
+        for b_mid in ("send OutB()", 'start UtteranceBotAction(script="b reacted")'):
+            for a_exit in ("", "  abort\n", "  send OutA()\n"):
+                for b_more_specific in (True, False):
+                    bm, am = ('match Msg(text="bye", lang="en")', 'match Msg(speaker="alice")') if b_more_specific else ('match Msg(text="bye")', 'match Msg(speaker="alice", lang="en")')
+                    text = "\n".join(["flow b", "  match Ping()", f"  {b_mid}", f"  {bm}", "", "flow a", "  activate b", f"  {am}"] + ([a_exit.rstrip("\n")] if a_exit else []) + ["", "flow main", "  start a", "  match Never()", ""])
+                    msg = lambda who: ["rawkw", "Msg", {"text": "bye", "lang": "en", "speaker": who}]  # noqa: E731
+                    hist = []
+                    for _ in range(r):
+                        hist += [["raw", "Ping", None], msg("bob")]
+                    hist += [["raw", "Ping", None], msg("alice"), ["raw", "Ping", None], ["age"], ["raw", "Ping", None], msg("bob"), ["raw", "Ping", None]]
+                    yield {"leg": "race", "text": text, "hist": hist, "choices": [], "activators": {"b": ["a"], "a": []}}
+
+
 def enumerate_cases(tier):
     yield from _nowait_cases()
+    yield from _restart_race_cases()
     hists = [
         [["raw", "E", 1], ["raw", "Eb", None], ["raw", "StopKeeper", None], ["raw", "Eb", None], ["raw", "E", 1], ["raw", "Eb", None]],
         [["raw", "E", 1], ["age"], ["raw", "Eb", None], ["raw", "Other", None], ["raw", "StopKeeper", None], ["raw", "Eb", None], ["raw", "E", 1]],
@@ -303,7 +321,9 @@ def prop(case):
     fed = 0
     late_finish = 0
     for i, item in enumerate(case["hist"]):
-        if item[0] == "raw":
+        if item[0] == "rawkw":
+            ev = dict(item[2], type=item[1])
+        elif item[0] == "raw":
             ev = {"type": item[1]}
             if item[2] is not None:
                 ev["v"] = item[2]
